@@ -120,6 +120,17 @@ let model_step (e : ecfg) (v : vec) (l : line) : mres option =
        let (taken, dropped) = split t r.s_removed in
        keep { m_res = "taken:" ^ show_ids taken; m_vec = r.s_vec; m_drops = dropped; m_exact_drops = true }
      | Panic _ -> keep { m_res = "panic"; m_vec = v; m_drops = []; m_exact_drops = false })
+  | ["into_iter"; f; b] ->
+    (* the vector is consumed (the driver goes on with a fresh, empty one); what the caller did not
+       take is dropped by the IntoIter, front to back *)
+    let r = into_iter v (nat_of_int (int_of_string f)) (nat_of_int (int_of_string b)) in
+    keep { m_res = "front:" ^ show_ids r.c_taken_front ^ ";back:" ^ show_ids r.c_taken_back ^ ";left:" ^ string_of_int (List.length r.c_left);
+           m_vec = { v_buf = []; v_len = N0 }; m_drops = r.c_left; m_exact_drops = true }
+  | ["clone"; k] when k = "0" ->
+    (* the clone holds the next fresh identities in order, is shown and dropped; the original stays *)
+    (match clone_vec e v l.next with
+     | Ret c -> keep { m_res = "ids:" ^ show_ids (contents c); m_vec = v; m_drops = contents c; m_exact_drops = true }
+     | Panic _ -> keep { m_res = "panic"; m_vec = v; m_drops = []; m_exact_drops = false })
   | ["retain"; a] ->
     let d = retain v (ans_of a) in
     keep { m_res = (if d.df_panicked then "panic" else "unit"); m_vec = d.df_vec; m_drops = d.df_dropped; m_exact_drops = true }
